@@ -279,7 +279,16 @@ func checkSat(scen string, in SatIn, nValid bool) *mc.Violation {
 var validVersions = append(gen.AuditIntStrings(0, 1<<62, 6), "0", "1", "1.0", "1.00", "1.0-0", "1.0-1", "0:1.0", "1:0", "1:1.0-1", "1.0~rc1", "1.0+b1", "1.0a", "1.0.", "1.0-1~", "1.0-1+b1",
 	"9", "10", "09", "1.9", "1.10", "2", "2.0-1", "1.0~", "1.0~~", "1a", "1+", "1.", "1-0", "1-1", "2:0", "1.0-a", "1.0-1.1", "1.2.3", "1.2.10",
 	"99999999999999999999", "100000000000000000000", "0.0", "0~", "1:1", "1.0-00")
-var invalidNumbers = []string{"", "a", "1 2", "1:", ":1", "-", "1_0", "a:1"}
+var invalidNumbers = append([]string{"", "a", "1 2", "1:", ":1", "-", "1_0", "a:1", "${binary:Version}", "${source:Version}~", "1.0${x}", "$1.0", "1.0 beta", "=1"}, auditNumbers()...)
+
+// auditNumbers: unparsable version texts built around the literals a change introduced into the code
+func auditNumbers() []string {
+	var out []string
+	for _, t := range gen.AuditStrings(func(s string) bool { return !gen.Versionish(s) && gen.OneLine(s) }, 4) {
+		out = append(out, t, t+"1.0", "1.0"+t, t+"x}")
+	}
+	return out
+}
 
 func Run(r *mc.Run) {
 	r.Rule = "full products: architecture pairs over the data-independent 65-value domain and real names; all lists of length <=3 over 6 patterns x negation x 5 architectures x 2 constructions; all dependencies with <=2 relations x <=3 alternatives over 6 shapes x 3 architectures; op x N x V; non-trivial = operands differ (Is), list non-empty (Matches), some alternative restricted (selection), any (SatisfiedBy); distinct by construction"
@@ -326,6 +335,7 @@ func Run(r *mc.Run) {
 	for _, t := range gen.AuditStrings(func(s string) bool { return gen.Nameish(s) && !strings.Contains(s, "-") }, 3) {
 		real = append(real, t, t+"-any", "any-"+t, t+"-amd64", "linux-"+t, "gnu-"+t+"-amd64", "gnu-linux-"+t) // alphabet audit
 	}
+	real = append(real, gen.AuditStrings(gen.Nameish, 4)...)
 	isScen("is-real-names", real)
 
 	// 2: lists
